@@ -64,7 +64,7 @@ def to_fracs(p, dmax, tol):
     return num, den, near
 
 
-def record_tt_sampler(Y, m, kind, seed, unique=False, **kw):
+def record_tt_sampler(Y, m, kind, seed, unique=False, scale_pow=0, **kw):
     d = len(Y)
     n = [G.shape[1] for G in Y]
     Fd = F.dense(Y)
@@ -72,10 +72,11 @@ def record_tt_sampler(Y, m, kind, seed, unique=False, **kw):
     total = float(W.sum())
     dmax = int(round(total)) + 1
     g = AuditGen(seed)
+    Yrun = [G * 2.0 ** scale_pow for G in Y] if scale_pow else Y
     if kind == 'lin':
-        res = teneva.sample(Y, m, seed=g, **kw)
+        res = teneva.sample(Yrun, m, seed=g, **kw)
     else:
-        res = teneva.sample_square(Y, m, unique=unique, seed=g, **kw)
+        res = teneva.sample_square(Yrun, m, unique=unique, seed=g, **kw)
     att = parse_choices(g.log, d, n)
     ev = []
     bindable = att is not None
@@ -116,6 +117,14 @@ def run(ctx):
         n, r = shapes[t % len(shapes)]
         kind = 'lin' if t % 2 == 0 else 'sq'
         Y = int_tt(rng, n, r, lo=0 if kind == 'lin' else -2, hi=3 if kind == 'lin' else 2, sparse=(t % 3 == 0))
+        if kind == 'lin' and t % 4 == 2:
+            # a non-negative tensor whose cores are signed: the element-wise square of a signed tensor
+            X = int_tt(rng, n, min(r, 2), lo=-1, hi=2)
+            Y = teneva.mul(X, X)
+        scale_pow = 0
+        if kind == 'sq' and t % 4 == 3:
+            # the distribution is invariant under scaling: a huge (power-of-two) norm must not matter
+            scale_pow = 150
         if kind == 'lin' and F.dense(Y).sum() <= 0:
             continue
         if kind == 'sq' and not np.any(F.dense(Y)):
@@ -127,11 +136,12 @@ def run(ctx):
             if m < 1:
                 continue
         try:
-            tr, bindable, res = record_tt_sampler(Y, m, kind, int(rng.integers(1 << 30)), unique=unique)
+            tr, bindable, res = record_tt_sampler(Y, m, kind, int(rng.integers(1 << 30)), unique=unique, scale_pow=scale_pow)
         except ValueError as ex:
             if unique and 'Can not generate' in str(ex):
                 continue
-            raise
+            ctx.violation('sample_square:raises' if kind == 'sq' else 'sample:raises', 'sampler raised %s: %s (n=%s, scale 2^%d per core)' % (type(ex).__name__, ex, n, scale_pow))
+            continue
         unbound += 0 if bindable else 1
         trs.append(tr)
         metas.append(dict(kind=kind, n=n, r=r, m=m, unique=unique))
